@@ -406,7 +406,9 @@ func deepComponents(c *engine.Ctx) {
 			for refs := 0; refs < 2; refs++ {
 				for _, ver := range []string{"1.4", "1.5"} {
 					d, where, refs, ver := d, where, refs, ver
-					c.Case(func() any { return map[string]any{"depth": d, "under": []string{"metadata.component", "components[0]"}[where], "refs": refs == 1, "version": ver} }, func(t *engine.T) *engine.Violation {
+					c.Case(func() any {
+						return map[string]any{"depth": d, "under": []string{"metadata.component", "components[0]"}[where], "refs": refs == 1, "version": ver}
+					}, func(t *engine.T) *engine.Violation {
 						var sb strings.Builder
 						for i := 0; i < d; i++ {
 							if refs == 1 {
